@@ -295,9 +295,35 @@ class Lifecycle:
             if not sub:
                 continue
             kind, term, ty = sub
+            pred_arms = None
+            if kind == "value" and ty.k == "bool":
+                # `if x.is_some() {A} else {B}` is `match x { Some(_) => A, None => B }` (likewise is_none / is_ok / is_err)
+                tv = strip_wrappers(term)
+                if tv[0] == "call":
+                    cfn = self.tr.call_term(tv[1]).get("fn") or {}
+                    pm = {"is_some": ("Some", "None"), "is_none": ("None", "Some"), "is_ok": ("Ok", "Err"), "is_err": ("Err", "Ok")}.get(cfn.get("name"))
+                    if pm and (cfn.get("def") or "").startswith(("std::option::Option", "std::result::Result")) and self.tr.call_term(tv[1])["args"]:
+                        a0 = self.tr.call_term(tv[1])["args"][0]
+                        pl0 = a0.get("move") or a0.get("copy")
+                        if pl0 is not None:
+                            aty = self.body.local_ty(pl0["l"]).peel_refs()
+                            t_arm = f_arm = None
+                            for v, tgt in blk.term["arms"]:
+                                if int(v) == 0:
+                                    f_arm = tgt
+                                else:
+                                    t_arm = tgt
+                            if f_arm is None:
+                                f_arm = blk.term["otherwise"]
+                            if t_arm is None:
+                                t_arm = blk.term["otherwise"]
+                            kind, term, ty = "discr", strip_wrappers(self.tr.norm(self.tr.call_args(tv[1])[0])), aty
+                            pred_arms = {pm[0]: t_arm, pm[1]: f_arm}
             cls = self.classify(term)
             arms = {}
-            if kind == "discr":
+            if pred_arms is not None:
+                arms = pred_arms
+            elif kind == "discr":
                 names = self.variant_names(ty)
                 if names:
                     for v, tgt in blk.term["arms"]:
@@ -440,12 +466,57 @@ class Lifecycle:
                     on_assign=on_assign, on_call=on_call, agg_value=agg_value, reset_at=[self.poll_fn_bb] if self.poll_fn_bb is not None else [],
                     reset_prefixes=("sel", "mbox_", "on_run_true", "on_run_false", "on_run_ok", "ctrl_none"),
                     reset_counters=("handle_message", "on_run"))
+        def assign_fork(bb, i, st, store):
+            """`flag = <the bool returned by on_run>`: the two cases Ok(true) / Ok(false), labelled like the arms of a match."""
+            rv = st["rv"]
+            if "use" not in rv:
+                return None
+            l = st["place"]["l"]
+            if l >= len(self.body.locals) or self.body.local_ty(l).k != "bool":
+                return None
+            if ai._eval_operand(rv["use"], store) is not None:
+                return None         # already decided (a copy of a value that was split before)
+            c = self.classify(self.tr.norm(self.tr.operand(rv["use"])))
+            if c and c[:2] == ("hook", "on_run") and len(c) == 4 and c[3] == ("payload", "Ok"):
+                return [(("c", 1), ("on_run_true",)), (("c", 0), ("on_run_false",))]
+            return None
+
+        def call_fork(bb, t, store):
+            """`killed = received.is_some()` on what the control channel's recv returned: the two cases of the match."""
+            fn = t.get("fn") or {}
+            pm = {"is_some": (("ctrl_some",), ("ctrl_none",)), "is_none": (("ctrl_none",), ("ctrl_some",))}.get(fn.get("name"))
+            if not pm or not (fn.get("def") or "").startswith("std::option::Option") or not t["args"]:
+                return None
+            c = self.classify(strip_wrappers(self.tr.norm(self.tr.operand(t["args"][0]))))
+            if c and c[:2] == ("recv", "ctrl") and len(c) == 3:
+                return [(("c", 1), pm[0]), (("c", 0), pm[1])]
+            return None
+
+        ai.assign_fork = assign_fork
+        ai.call_fork = call_fork
         ai.run()
         self._ai = ai
         return ai
 
     def loc(self, bb):
         return self.f.span(self.body.blocks[bb].term["span"]).loc
+
+    def ctrl_branch_targets(self):
+        """Blocks where the handler of the select!'s control-recv branch starts."""
+        out = []
+        for bb, info in self.switch_info.items():
+            if info["cls"] == ("select_out",):
+                for i, br in enumerate(self.sel_branches):
+                    if br["kind"] == "recv_ctrl" and ("_%d" % i) in info["arms"]:
+                        out.append(info["arms"]["_%d" % i])
+        return out
+
+    def ctrl_split_by_predicate(self):
+        """True when the received control signal is not matched but turned into a bool (`killed = received.is_some()`):
+        the exploration then splits the two cases at that call (flags ctrl_some / ctrl_none)."""
+        ai = self.explore()
+        has_switch = any(i["cls"] and i["cls"][:2] == ("recv", "ctrl") and "Some" in i["arms"] for i in self.switch_info.values())
+        return (not has_switch) and any("ctrl_some" in s[2] for s in ai.states) and any("ctrl_none" in s[2] for s in ai.states)
 
 
 def find_idle_local(lc):
